@@ -1461,12 +1461,17 @@ impl<'input, T: Input> Scanner<'input, T> {
         self.remove_simple_key()?;
         self.allow_simple_key();
 
-        self.end_implicit_mapping(self.mark);
-        // An explicit key (`?`) only concerns the entry that just ended.
-        self.flow_mapping_started = self
+        // A `,` inside a flow mapping separates that mapping's entries; only a `,` directly inside
+        // a flow sequence ends the implicit mapping of that sequence's current entry.
+        let in_flow_mapping = self
             .flow_mapping_levels
             .last()
             .is_some_and(|(is_mapping, _)| *is_mapping);
+        if !in_flow_mapping {
+            self.end_implicit_mapping(self.mark);
+        }
+        // An explicit key (`?`) only concerns the entry that just ended.
+        self.flow_mapping_started = in_flow_mapping;
 
         let start_mark = self.mark;
         self.skip_non_blank();
